@@ -620,7 +620,7 @@ pub fn programs(opts: &Opts) -> Vec<(String, Files)> {
             out.push((c.name, c.files));
         }
     }
-    let n = opts.n(1200, 30000);
+    let n = opts.n(2500, 40000);
     for i in 0..n {
         let mut p = Prng::derive(opts.seed, i as u64, "c09-program");
         let cfg = ConcCfg::swarm(&mut p);
